@@ -56,6 +56,8 @@ def analyse(F, s, classes):
     for fn in F.fns_of(s):
         if fn.derived or fn.name in ("new", "default", "fmt"):
             continue
+        if fn.path in F.helpers():
+            continue  # context-bound helper: its writes are part of its callers' post-terms (inlined)
         try:
             r = symex.evaluate(F, fn)
             ts.methods[fn.label] = (fn, r)
